@@ -61,7 +61,7 @@ func (e *Engine) FindSubmatch(haystack []byte) *MatchWithCaptures {
 // This reduces PikeVM work from O(remaining_haystack) to O(match_len) per match.
 // For 50K matches on 10MB input: ~400x less PikeVM work.
 func (e *Engine) FindSubmatchAt(haystack []byte, at int) *MatchWithCaptures {
-	if at > len(haystack) {
+	if at < 0 || at > len(haystack) {
 		return nil
 	}
 
